@@ -44,10 +44,7 @@ def member_model(ms):
 def check_world(w):
     """Returns list of (member index, kind, what) ; kind = 'spec' (differs from its solo run, which
     agrees with the model), 'corr' (solo run and model disagree)."""
-    for m in w.members:
-        eng.normalize(m.scn)
-    for f in w.families:
-        eng.normalize(f.scn)
+    W.normalize_world(w)
     obs = W.run_world(w)
     models = member_model(w.members)
     fails = []
@@ -194,6 +191,47 @@ def probe_d7():
     return bad, what
 
 
+def make_world(seed, i):
+    rng = random.Random(f"{seed}:C16:{i}")
+    P = PROFILE_ASYNC if rng.random() < 0.35 else PROFILE
+    return W.gen_world(rng, P, f"C16-{seed}-{i}")
+
+
+def _screen(args):
+    """thorough tier, worker process: does world `i` show any failure? (judged and reported by the parent)"""
+    seed, i = args
+    w = make_world(seed, i)
+    try:
+        fails, obs, models = check_world(w)
+    except Exception:
+        return (i, True, None, 0, 0)
+    return (i, bool(fails), scn_hash(W.world_to_json(w)) if nontrivial(w) else None, len(w.members), len(w.order))
+
+
+def screen_parallel(ctx, stats, nontriv, n, budget):
+    """split `n` world indices over worker processes; returns the indices that need a closer look"""
+    import multiprocessing as mp
+    import time
+    jobs = int(os.environ.get("VERIF_JOBS", "0") or 0) or min(16, os.cpu_count() or 1)
+    bad = []
+    t0 = time.time()
+    with mp.get_context("fork").Pool(jobs) as pool:
+        for (i, failed, h, nm, nops) in pool.imap_unordered(_screen, [(ctx.seed, i) for i in range(n)], chunksize=20):
+            stats["worlds"] += 1
+            stats["members" if "members" in stats else "clones"] += nm
+            if "ops" in stats:
+                stats["ops"] += nops
+            if h:
+                nontriv.add(h)
+            if failed:
+                bad.append(i)
+            if time.time() - t0 > budget or len(bad) >= 6:
+                pool.terminate()
+                break
+    ctx.coverage["workers"] = jobs
+    return sorted(bad)
+
+
 def run(ctx):
     lean_obligations(ctx)
     ctx.coverage["rule"] = RULE
@@ -239,10 +277,16 @@ def run(ctx):
     nontriv = set()
     samples = []
     i = 0
+    todo = None
+    if ctx.tier == "thorough":
+        todo = screen_parallel(ctx, stats, nontriv, target * 6, max(30.0, ctx.left() - 90))
+        target = stats["worlds"] + len(todo)
     while stats["worlds"] < target and ctx.left() > 8 and len(ctx.violations) < 3:
-        rng = random.Random(f"{ctx.seed}:C16:{i}")
-        P = PROFILE_ASYNC if rng.random() < 0.35 else PROFILE
-        w = W.gen_world(rng, P, f"C16-{ctx.seed}-{i}")
+        if todo is not None:
+            if not todo:
+                break
+            i = todo.pop(0)
+        w = make_world(ctx.seed, i)
         i += 1
         try:
             fails, obs, models = check_world(w)
